@@ -394,6 +394,13 @@ def m_hasattr(I, obj, name):
             return False
         raise
 
+@model(builtins.dir)
+def m_dir(I, *args):
+    # attribute names only: no field value is looked at
+    if args and isinstance(args[0], Sym):
+        raise Unsupported("dir() of a symbolic value")
+    return dir(*args)
+
 @model(builtins.setattr)
 def m_setattr(I, obj, name, value):
     I.setattr(obj, name, value)
@@ -587,8 +594,8 @@ def method_model(tp, name):
 
 @method_model(dict, 'get')
 def _dict_get(I, d, k, default=None):
-    from .interp import has_sym
-    if isinstance(k, Sym) or has_sym(k):
+    from .interp import has_sym, identity_key
+    if isinstance(k, Sym) or (has_sym(k) and not identity_key(k)):
         for kk in list(d.keys()):
             if I.truth(I.eq(kk, k)):
                 return d[kk]
@@ -600,8 +607,8 @@ def _dict_get(I, d, k, default=None):
 
 @method_model(dict, 'pop')
 def _dict_pop(I, d, k, *default):
-    from .interp import has_sym
-    if isinstance(k, Sym) or has_sym(k):
+    from .interp import has_sym, identity_key
+    if isinstance(k, Sym) or (has_sym(k) and not identity_key(k)):
         for kk in list(d.keys()):
             if I.truth(I.eq(kk, k)):
                 return d.pop(kk)
